@@ -13,8 +13,55 @@ def recv_fields(body, site, arg=0):
     return cfg.origin_fields(body, site.args[arg])
 
 
-def sites_on_field(body, callee_pat, field, arg=0):
-    return [s for s in body.calls(callee_pat) if recv_fields(body, s, arg)[-1:] == [field]]
+def _local_target(body, site):
+    fb = body.facts
+    if fb is None:
+        return None
+    for n in (site.resolved, site.rfull, site.full):
+        if n and n in fb.bodies and n != body.name:
+            return fb.bodies[n]
+    return None
+
+
+def _helper_has(body, pred, depth, seen=None):
+    """does a local helper (or its closures / async body) contain a site satisfying pred(body, site)?"""
+    fb = body.facts
+    seen = seen if seen is not None else set()
+    if body.name in seen:
+        return False
+    seen.add(body.name)
+    for b in fb.tree(body.name):
+        for s in b.sites:
+            if pred(b, s):
+                return True
+            if depth > 0:
+                t = _local_target(b, s)
+                if t is not None and _helper_has(t, pred, depth - 1, seen):
+                    return True
+    return False
+
+
+def deep_sites(body, pred, depth=1):
+    """sites of `body` that satisfy pred directly, plus calls of local helper functions that contain such a site
+    (so that extracting a step into a helper does not hide it from the ordering / pairing rules)"""
+    out = []
+    for s in body.sites:
+        if pred(body, s):
+            out.append(s)
+        elif depth > 0:
+            t = _local_target(body, s)
+            if t is not None and t.name.startswith('rnacos::') and _helper_has(t, pred, depth - 1):
+                out.append(s)
+    return out
+
+
+def sites_on_field(body, callee_pat, field, arg=0, deep=0):
+    rx = re.compile(callee_pat)
+
+    def pred(b, s):
+        names = [s.callee, s.full, s.resolved, s.rfull]
+        return any(n and rx.search(n) for n in names) and recv_fields(b, s, arg)[-1:] == [field]
+    return deep_sites(body, pred, deep)
 
 
 def awaited(body, site):
@@ -104,13 +151,14 @@ def read_fields(body, owner_pat=None):
     return out
 
 
-def mut_calls_on_field(body, field, method_pat):
-    """calls like self.<field>.<method>(..) where receiver is (a reference to) the field"""
-    out = []
-    for s in body.calls(method_pat):
-        if s.args and field in recv_fields(body, s):
-            out.append(s)
-    return out
+def mut_calls_on_field(body, field, method_pat, deep=0):
+    """calls like self.<field>.<method>(..) where receiver is (a reference to) the field; also calls of local helpers containing one"""
+    rx = re.compile(method_pat)
+
+    def pred(b, s):
+        names = [s.callee, s.full, s.resolved, s.rfull]
+        return any(n and rx.search(n) for n in names) and bool(s.args) and field in recv_fields(b, s)
+    return deep_sites(body, pred, deep)
 
 
 def discard_sites(body):
@@ -165,3 +213,46 @@ def ok_return_blocks(body):
         if t.local_tainted(0):
             out.append(i)
     return out
+
+
+def field_accesses_of_local(body, local):
+    """(reads, writes) of named fields of a local (struct by value): lists of (field, bb, kind)
+    writes = direct assignments to local.F and `&mut local.F` borrows; reads = uses of local.F in rvalues / shared borrows / call args"""
+    reads, writes = [], []
+
+    def fld(p):
+        if isinstance(p, int) or pl_local(p) != local:
+            return None
+        fs = [e for e in pl_proj(p) if isinstance(e, dict) and 'f' in e]
+        if not fs or pl_proj(p)[0] != fs[0]:
+            return None
+        return fs[0]['f']
+    for i, j, s in body.stmts():
+        if 'd' in s:
+            f = fld(s['d'])
+            if f is not None:
+                writes.append((f, i, 'assign'))
+        rv = s.get('rv')
+        if not rv:
+            continue
+        if rv['k'] in ('ref', 'rawptr'):
+            f = fld(rv['pl'])
+            if f is not None:
+                (writes if rv.get('mut') else reads).append((f, i, 'borrow'))
+        else:
+            for p in rv_places(rv):
+                f = fld(p)
+                if f is not None:
+                    reads.append((f, i, 'use'))
+    for i, b in enumerate(body.blocks):
+        if b.get('cleanup'):
+            continue
+        t = b['t']
+        ops = t['args'] if t['k'] == 'call' else ([t['discr']] if t['k'] == 'switch' else [])
+        for op in ops:
+            p = op_place(op)
+            if p is not None:
+                f = fld(p)
+                if f is not None:
+                    reads.append((f, i, 'use'))
+    return reads, writes
